@@ -43,7 +43,7 @@ class UserRaise(Exception):
 
 CUR = None          # the running Execution, or None (wrappers are transparent then)
 WATCHDOG_W = 60     # identical heartbeats (no evaluation, same rho/delta/npt/run) tolerated before 'livelock'
-EXEC_TIMEOUT = 60.0
+EXEC_TIMEOUT = 120.0   # CPU seconds per execution
 
 _installed = False
 _final_check_line = None
@@ -470,10 +470,12 @@ class Execution(object):
         if own_rng:
             np.random.normal, np.random.randint, np.random.seed = self._rng_normal, self._rng_randint, self._rng_seed
 
+        # the horizon is measured in CPU time of this process (ITIMER_PROF), not wall-clock time: a loaded machine must not
+        # turn a slow but terminating execution into a false 'did not terminate'
         def on_alarm(signum, frame):
-            raise Timeout("execution exceeded %.0f s" % EXEC_TIMEOUT)
-        old_handler = signal.signal(signal.SIGALRM, on_alarm)
-        signal.setitimer(signal.ITIMER_REAL, EXEC_TIMEOUT)
+            raise Timeout("execution exceeded %.0f s of CPU time" % EXEC_TIMEOUT)
+        old_handler = signal.signal(signal.SIGPROF, on_alarm)
+        signal.setitimer(signal.ITIMER_PROF, EXEC_TIMEOUT)
         CUR = self
         try:
             try:
@@ -488,8 +490,8 @@ class Execution(object):
                 self.exc_tb = traceback.format_exc(limit=6)
         finally:
             CUR = None
-            signal.setitimer(signal.ITIMER_REAL, 0)
-            signal.signal(signal.SIGALRM, old_handler)
+            signal.setitimer(signal.ITIMER_PROF, 0)
+            signal.signal(signal.SIGPROF, old_handler)
             if own_rng:
                 np.random.normal, np.random.randint, np.random.seed = saved
         if self.outcome in ("livelock", "timeout"):
